@@ -121,16 +121,25 @@ def run_op(op):
         link = Link(data, RngDecider(R.random.Random(o["segseed"]), {"seg": o["seg"]}), 8 * len(data) + 200)
         rd = RTCMReader(SimSocket(link), validate=o["validate"], quitonerror=o["quitonerror"], labelmsm=o["labelmsm"], parsed=o["parsed"], bufsize=o["bufsize"])
         streams = [None]
+        handover = o.get("handover")
     else:  # feed
         fs = FeedStream()
         rd = RTCMReader(fs, validate=o["validate"], quitonerror=o["quitonerror"], labelmsm=o["labelmsm"], parsed=o["parsed"])
         streams = op[1]
+    nfr = 0
     for chunk in streams:
         if chunk is not None:
             fs.feed(b"".join(bytes.fromhex(h) for h in chunk))
         guard = 0
         while guard < 400:
             guard += 1
+            if kind == "sockiter" and handover is not None and nfr >= handover:
+                # the connection passes to a new reader object; the old one is dropped and collected
+                import gc
+
+                rd = RTCMReader(rd.datastream, validate=o["validate"], quitonerror=o["quitonerror"], labelmsm=o["labelmsm"], parsed=o["parsed"], bufsize=o["bufsize"])
+                gc.collect()
+                handover = None
             try:
                 raw, parsed = rd.read()
             except Exception as e:  # pylint: disable=broad-except
@@ -139,6 +148,7 @@ def run_op(op):
             if raw is None and parsed is None:
                 out.append(("none",))
                 break
+            nfr += 1
             out.append(("frame", bytes(raw).hex(), _canon_msg(parsed) if parsed is not None else None))
     return ("events", tuple(out))
 
@@ -328,6 +338,8 @@ def _make_op(rng, ident_pool, fail_p, labelmsm=None):
         return ["iter", frames, o]
     if r < 0.95:
         o = dict(o, seg=rng.choice(("byte", "small", "random", "full")), segseed=rng.getrandbits(32), bufsize=rng.choice((1, 7, 64, 4096)))
+        if rng.random() < 0.4:
+            o["handover"] = rng.choice((0, 1, 2))  # "through however many reader objects"
         return ["sockiter", frames, o]
     half = max(1, len(frames) // 2)
     return ["feed", [frames[:half], frames[half:]], o]
@@ -468,10 +480,20 @@ def _count_steps(scn):
     return dry.step
 
 
+def _reference_op(op):
+    """the operation whose outcome (computed alone, in a pristine process) is the
+    expected one: the same bytes and options through ONE reader object"""
+    if op[0] == "sockiter" and op[2].get("handover") is not None:
+        o = dict(op[2])
+        del o["handover"]
+        return [op[0], op[1], o]
+    return op
+
+
 def execute(scn):
     threads = scn["threads"]
     all_ops = [op for th in threads for op in th]
-    base = baselines(all_ops)
+    base = baselines([_reference_op(op) for op in all_ops])
     expect = {repr(op): b for op, b in zip(all_ops, base)}
     viol = None
     run_scn = scn
